@@ -355,6 +355,11 @@ def parse_cmd_pkt(line: bytes) -> tuple[bytes, list[bytes]]:
     return cmd, args[:-1].split(b"\0")
 
 
+# A pkt-line is at most 65520 bytes long, including its 4-byte length prefix
+# (LARGE_PACKET_MAX in git).
+MAX_PKT_LINE_PAYLOAD = 65516
+
+
 def pkt_line(data: bytes | None) -> bytes:
     """Wrap data in a pkt-line.
 
@@ -365,6 +370,11 @@ def pkt_line(data: bytes | None) -> bytes:
     """
     if data is None:
         return b"0000"
+    if len(data) > MAX_PKT_LINE_PAYLOAD:
+        raise ValueError(
+            f"pkt-line payload of {len(data)} bytes exceeds the maximum of "
+            f"{MAX_PKT_LINE_PAYLOAD}"
+        )
     return f"{len(data) + 4:04x}".encode("ascii") + data
 
 
@@ -566,7 +576,12 @@ class Protocol:
         """
         if self._readahead is not None:
             raise ValueError("Attempted to unread multiple pkt-lines.")
-        self._readahead = BytesIO(pkt_line(data))
+        # Re-frame without the sender-side size limit of pkt_line(): the
+        # line was accepted by read_pkt_line(), which is more lenient.
+        if data is None:
+            self._readahead = BytesIO(b"0000")
+        else:
+            self._readahead = BytesIO(b"%04x" % (len(data) + 4) + data)
 
     def read_pkt_seq(self) -> Iterable[bytes]:
         """Read a sequence of pkt-lines from the remote git process.
